@@ -597,7 +597,7 @@ def dict_resolver(env):
 
             try:
                 co = codefind.find_code(*hierarchy, module=module or "__main__")
-            except KeyError:
+            except (KeyError, ImportError, AttributeError):
                 raise CodeNotFoundError(
                     f"Cannot find a function for the reference '{x}'."
                     " Try calling `ptera.refstring` on the function you want"
@@ -627,7 +627,12 @@ def dict_resolver(env):
                 raise SelectorError(f"Could not resolve '{start}'.")
 
             for part in parts:
-                curr = getattr(curr, part)
+                try:
+                    curr = getattr(curr, part)
+                except AttributeError:
+                    raise SelectorError(
+                        f"Could not resolve '{x}': no attribute '{part}'."
+                    )
 
         return getattr(curr, "__ptera__", curr)
 
